@@ -35,7 +35,8 @@ UNPROVED = ["that arcovar_marple / scipy lstsq inside arma_estimate are equivari
             "conjugation / real-path theorems assume the divisors of the executed stages are nonzero (N, N-k, mean power, error powers, Burg denominators)"]
 ASSUMPTIONS = ["exact arithmetic in the theorems", "detrend off for the periodogram shift clause (subtracting the mean is not modulation covariant; the class default is None)"]
 RULE = ("complex data x shift m (any integer incl. negative and > NFFT) x every class x NFFT even/odd; conjugation; real data declared complex; "
-        "conj-time-reversal for the invariant estimators; non-trivial = non-constant data, m not a multiple of NFFT")
+        "conj-time-reversal for the invariant estimators; non-trivial = non-constant data, m not a multiple of NFFT; plus shift / mirror on "
+        "complex-typed data with zero imaginary part")
 GEN_NAMES = ['table_complete_c04', 'class_rotation', 'class_mirror', 'onesided_is_twice_half', 'onesided_length', 'routing_yule', 'routing_burg',
              'routing_minvar_mtm_fourier', 'routing_covar_ma']
 
@@ -286,3 +287,30 @@ def run(ctx):
     for i in ctx.coq_cases('c04_arma_modulated', AC.pre(extra), cases, shard=4,
                            descr='arma_estimate at inputs modulated by the period-4 character (every outcome code, AR / MA / rho, oracle residual exactly zero) vs Model.ArmaEst.arma_estimate at QcC'):
         ctx.corr_disagreement('arma_estimate', i, meta[i])
+
+    # ---------------- complex-typed data whose imaginary part is identically zero (a real record declared complex): the two-sided clauses
+    # (shift, mirror) apply to them like to any complex data -- the layout must not depend on the VALUES of the imaginary parts
+    ZI = ['Periodogram', 'pcorrelogram', 'pburg', 'pyule', 'pma', 'pminvar']
+    for it in range(ctx.q(2, 8) * len(ZI)):
+        cls = ZI[it % len(ZI)]; clause = 'shift' if (it // len(ZI)) % 2 == 0 else 'mirror'
+        N = int(rng.integers(16, 49))
+        NFFT = int(rng.choice([N, N + 1, N + 2, N + 5, 2 * N, 2 * N + 1, 64, 67])); NFFT = max(NFFT, N)
+        xr, kind = E.gen_data(rng, N, False)
+        x = np.asarray(xr, dtype=complex)
+        cfg = E.default_cfg(cls, N, rng, True)
+        if cls == 'pcorrelogram':
+            NFFT = max(NFFT, 2 * cfg['lag'] + 2)
+        if cls == 'pminvar':
+            NFFT = max(NFFT, 2 * cfg['order'] + 1)
+        m = int(rng.choice([1, 2, 3, 5, -1, -4, NFFT - 1]))
+        ctx.count('search/zero-imag/%s/%s' % (clause, cls))
+        ctx.case(('zi', clause, cls, json.dumps(jcfg(cfg), sort_keys=True), NFFT, m, x.tobytes()), nontrivial=True,
+                 sample={'clause': clause, 'estimator': cls, 'cfg': jcfg(cfg), 'N': N, 'NFFT': NFFT, 'm': m, 'kind': kind + ' (complex dtype, zero imaginary part)'})
+        rep = {'clause': clause, 'estimator': cls, 'cfg': jcfg(cfg), 'NFFT': NFFT, 'm': m, 'x': vlib.hexv(x), 'datatype': 'complex'}
+        try:
+            what = check_case(clause, cls, x, cfg, NFFT, m)
+        except Exception as e:
+            what = 'raised %s: %s' % (type(e).__name__, str(e)[:100])
+        if what is not None:
+            ctx.violation('%s/%s/%s' % (clause, cls, 'NFFT-even' if NFFT % 2 == 0 else 'NFFT-odd'),
+                          '%s (%s, NFFT=%d, complex dtype with zero imaginary part): %s' % (cls, clause, NFFT, what), rep)
